@@ -126,7 +126,7 @@ StepTags(pre, post, ev, a, ok, o) ==
   \* --- C01: a negative NST adjustment takes exactly the requested amount out of the ledger as long as
   \*     the staker's withdrawable balance and pending undelegations cover it (integer arithmetic, no
   \*     rounding involved); beyond that it continues into the delegated shares (rounded per operator),
-  \*     and it never takes more than requested ---
+  \*     and it never takes more than requested (up to the precision of the 18-decimal proportion) ---
   (IF ev = "NstUpdate" /\ ok /\ NIsNeg(a.d) THEN
      LET want == NNeg(a.d)
          liquid == NAdd(pre.stk[<<a.s, a.a>>].wd,
@@ -136,7 +136,11 @@ StepTags(pre, post, ev, a, ok, o) ==
          owedBefore == SumF(recsOf, LAMBDA k : pre.recs[k].actual)
          owedAfter  == SumF({k \in recsOf : k \in DOMAIN post.recs}, LAMBDA k : post.recs[k].actual)
          fromPending == NMin(NMax(0, NSub(want, pre.stk[<<a.s, a.a>>].wd)), owedBefore)
-     IN T(NLe(dec, want) /\ NGe(dec, NMin(want, liquid)), "C01_NstAdjustmentNotApplied") \cup
+         \* the part that reaches the delegated shares is removed with the 18-decimal proportion
+         \* remaining / delegated, rounded half-even: it may exceed the request by at most one unit of the last
+         \* decimal of that proportion times the delegated amount, plus one unit per operator
+         slack == NAdd(DecTruncInt(HeldBy(pre, a.a), PREC), Cardinality(OPERATORS))
+     IN T(NLe(dec, NAdd(want, slack)) /\ NGe(dec, NMin(want, liquid)), "C01_NstAdjustmentNotApplied") \cup
         \* C03: the part of the decrease that falls on pending undelegations is recorded in them
         \* ("recorded amount less any slashing applied while it was pending")
         T(NEq(NSub(owedBefore, owedAfter), fromPending), "C03_PendingSlashNotRecorded")
